@@ -79,7 +79,8 @@ def run(ctx):
                 ('MC_origcopy.cfg', ('Invariant NoUninitRead',), 'copy constructor loops to the table capacity'),
                 ('MC_fine_storefirst.cfg', ('Invariant AllocCovered', 'Invariant StableRefs', 'Invariant NoUninitRead'),
                  'allocatedSize_ stored before allocateBuffer()')):
-            res = ctx.tlc(SPEC, 'MCArena.tla', cfg, workers=4, count=False, label='negative control: ' + label)
+            res = ctx.tlc(SPEC, 'MCArena.tla', cfg, workers=4, count=False, label='negative control: ' + label,
+                          extra=['-noGenerateSpecTE'])
             if res.violation not in want:
                 raise ToolError('negative control failed: %s gave %r, expected one of %r' % (cfg, res.violation, want))
 
@@ -95,7 +96,7 @@ def run(ctx):
     ctx.sample_trace(tr, 12, skip=1)
 
     # E4 ---------------------------------------------------------------------------------------
-    for pct, n in ((0, 2000 if thorough else 100), (3, 1000 if thorough else 50)):
+    for pct, n in ((0, 2000 if thorough else 150), (3, 1000 if thorough else 80)):
         tr = os.path.join(ctx.work, 'rand_p%d.ndjson' % pct)
         tot, _ = ctx.driver(exe, ['--out', tr, '--random', n, '--seed', ctx.seed + 13 * pct, '--randprog',
                                   '--pct', pct], WHAT, label='random pct%d' % pct)
